@@ -27,7 +27,7 @@ type Case struct {
 	Toks    []Tok
 	Trailer string
 	// Mutation applied to the full text: "" (cuts only), "append)", "append]", "append}",
-	// "wrong-closer", "extra-closer", "two-expressions"
+	// "wrong-closer", "extra-closer", "two-expressions", "two-expressions-second-cut"
 	Mut    string
 	MutPos int
 	Second []Tok `json:",omitempty"`
@@ -145,6 +145,11 @@ func genCase(t *rapid.T) Case {
 	default:
 		c.Mut = "two-expressions"
 		c.Second = genExpr(t, "second")
+		if rapid.Bool().Draw(t, "secondcut") {
+			// the second expression is only begun
+			c.Mut = "two-expressions-second-cut"
+			c.MutPos = rapid.IntRange(1, len(c.Second)).Draw(t, "secondcutat")
+		}
 	}
 	return c
 }
@@ -348,6 +353,19 @@ func check(c Case) pbt.Verdict {
 		bad = full + c.Mut[len("append"):]
 	case c.Mut == "two-expressions":
 		bad = full + " " + text(c.Second)
+	case c.Mut == "two-expressions-second-cut":
+		k := c.MutPos
+		if k > len(c.Second) {
+			k = len(c.Second)
+		}
+		opened := false
+		for _, tk := range c.Second[:k] {
+			opened = opened || tk.Kind == "open"
+		}
+		if !opened {
+			k = len(c.Second) // a lone reader macro or atom prefix: keep the whole second expression
+		}
+		bad = full + " " + text(c.Second[:k])
 	case c.Mut == "wrong-closer":
 		// replace the MutPos-th closer (cyclically) by a different one
 		idx := []int{}
